@@ -562,7 +562,11 @@ ModelEvent(h, st) ==
           ELSE Ev(st, h, Put(h, st.res, Fresh(AdjModel(a.records))), "ok", [none |-> TRUE])
      [] st.call = "parse_uc" ->
           IF \A k \in 1..Len(a.records) : a.records[k][1] \notin {"H", "S"} THEN Ev(st, h, h, "error", [none |-> TRUE])
-          ELSE Ev(st, h, Put(h, st.res, Fresh(UcModel(a.records))), "ok", [none |-> TRUE])
+          ELSE LET u == UcModel(a.records)
+                   v == IF a.via = "cli_repset" THEN [u EXCEPT !.obs = [k \in 1..Len(u.obs) |-> u.obs[k] \o "~R"]] ELSE u
+                   \* the command writes HDF5: the loaded table carries the placeholder table id
+                   w == IF a.via = "api" THEN v ELSE HNorm(v)
+               IN Ev(st, h, Put(h, st.res, Fresh(w)), "ok", [none |-> TRUE])
      [] st.call = "validate" ->
           LET f == MutFacts(a.fmt, a.muts)
               decl == [obs |-> pre.obs, samp |-> pre.samp, mat |-> pre.mat]
@@ -865,7 +869,8 @@ StepsFor(call, h, recv, res, full) ==
          {St(call, recv, res, [records |-> r, header |-> hd, input |-> i]) :
             r \in AdjRecordSets, hd \in BOOLEAN, i \in (IF full THEN {"lines", "text", "handle"} ELSE {"lines"})}
     [] call = "parse_uc" ->
-         {St(call, recv, res, [records |-> r, comments |-> c]) : r \in UcRecordSets, c \in BOOLEAN}
+         {St(call, recv, res, [records |-> r, comments |-> c, via |-> v]) :
+            r \in UcRecordSets, c \in BOOLEAN, v \in (IF full THEN {"api", "cli", "cli_repset"} ELSE {"api"})}
     [] call = "validate" ->
          UNION {
            LET M == IF fmt = "json" THEN JsonMutations ELSE Hdf5Mutations IN
